@@ -116,6 +116,9 @@ class ThrottleExecutor(CanCustomizeBind, Executor):
         # Set whenever the submit thread takes jobs off the queue, to release a
         # submit() blocked on a full queue (block=True)
         self._unblock_event = get_event()
+        # True once shutdown() has been requested (possibly still waiting for
+        # the shutdown gate, which a blocked submit() holds)
+        self._closing = False
         self._running_count = AtomicInt()
         self._throttle = count if callable(count) else lambda: count
         self._last_throttle = self._throttle()
@@ -149,6 +152,10 @@ class ThrottleExecutor(CanCustomizeBind, Executor):
             return out
 
     def shutdown(self, wait=True, **_kwargs):
+        # A submit() blocked on a full queue holds the shutdown gate: release it
+        # first, otherwise we would wait for the queue to drain (maybe forever).
+        self._closing = True
+        self._unblock_event.set()
         if self._shutdown():
             self._log.debug("Shutting down")
             metrics.EXEC_INPROGRESS.labels(type="throttle", executor=self._name).dec()
@@ -162,6 +169,9 @@ class ThrottleExecutor(CanCustomizeBind, Executor):
             # Only one submit() can be here at a time (we hold the shutdown gate),
             # so clear / check / wait cannot lose a wake-up.
             self._unblock_event.clear()
+            if self._closing:
+                # don't keep shutdown() waiting behind us
+                return
             if throttle_val is None or len(self._to_submit) < throttle_val:
                 return
             self._log.debug("%s: throttling on submit", self._name)
